@@ -79,6 +79,74 @@ pub fn handle(op: &str, cmd: &Value) -> Value {
             json!({"all_ok": ok_empty && ok_ident && ok_ns && ok_disp, "is_empty": ok_empty, "ident": ok_ident, "namespace": ok_ns, "display": ok_disp})
         }
         "table_step" => table_step(cmd),
+        "json_shape" => crate::jsonref::judge(&crate::reg::registry_from_json(&cmd["types"])),
+        "json_battery" => {
+            let mut bad = vec![]; let mut n = 0;
+            for r in crate::laws::corpus_registries() { n += 1; let j = crate::jsonref::judge(&r); if j["shape_ok"] != true || j["roundtrip_ok"] != true { bad.push(format!("registry with {} types: shape {} roundtrip {}", r.types.len(), j["shape_ok"], j["roundtrip_ok"])); } }
+            json!({"failed": bad, "cases": n})
+        }
+        "layout_battery" => {
+            // the reference encoder/decoder against the library on the registries of the law corpus and hand-made corner cases
+            use scale::{Decode, Encode};
+            let mut bad: Vec<String> = vec![];
+            let mut n = 0;
+            let mut regs: Vec<scale_info::PortableRegistry> = crate::laws::corpus_registries();
+            for id in [0u32, 63, 64, 16383, 16384, (1 << 30) - 1, 1 << 30, u32::MAX] {
+                let t = Type::new(Path::from_segments_unchecked(vec!["p".to_string()]), vec![scale_info::TypeParameter::new_portable("T".into(), Some(id.into()))], scale_info::TypeDefArray::new(id, id.into()), vec!["d".to_string()]);
+                regs.push(scale_info::PortableRegistry { types: vec![scale_info::PortableType::new(id, t)] });
+            }
+            for r in &regs {
+                n += 1;
+                let lib = r.encode();
+                if crate::v14::encode_registry(r) != lib { bad.push(format!("encoder differs on registry with {} types", r.types.len())); }
+                let mut rd = crate::v14::Rd { b: &lib, p: 0 };
+                if rd.registry().as_ref() != Some(r) || rd.p != lib.len() { bad.push(format!("reference decoder differs on registry with {} types", r.types.len())); }
+                if scale_info::PortableRegistry::decode(&mut &lib[..]).ok().as_ref() != Some(r) { bad.push("library decoder differs".to_string()); }
+            }
+            bad.truncate(8);
+            json!({"failed": bad, "cases": n})
+        }
+        "decode_bytes" => {
+            use scale::{Decode, Encode};
+            let bytes: Vec<u8> = cmd["bytes"].as_array().unwrap().iter().map(|b| b.as_u64().unwrap() as u8).collect();
+            fn go<T: Decode + Encode>(bytes: &[u8]) -> Value {
+                let mut inp = bytes;
+                match T::decode(&mut inp) {
+                    Ok(v) => { let used = bytes.len() - inp.len(); json!({"decoded": true, "consumed": used, "canonical": v.encode() == bytes[..used]}) }
+                    Err(_) => json!({"decoded": false}),
+                }
+            }
+            use scale_info::{form::PortableForm as P, *};
+            match cmd["entry"].as_str().unwrap() {
+                "PortableRegistry" => go::<PortableRegistry>(&bytes), "PortableType" => go::<PortableType>(&bytes), "Type" => go::<Type<P>>(&bytes), "TypeDef" => go::<TypeDef<P>>(&bytes),
+                "Field" => go::<Field<P>>(&bytes), "Variant" => go::<Variant<P>>(&bytes), "TypeParameter" => go::<TypeParameter<P>>(&bytes), "Path" => go::<Path<P>>(&bytes),
+                other => json!({"error": format!("entry {other}")}),
+            }
+        }
+        "resolve" => {
+            let n = cmd["n"].as_u64().unwrap();
+            let id = cmd["id"].as_u64().unwrap() as u32;
+            let mut b = PortableRegistryBuilder::new();
+            for i in 0..n { b.register_type(ty_of(i)); }
+            let r = b.finish();
+            let got = r.resolve(id).map(ty_index);
+            let want = if (id as u64) < n { Some(id as u64) } else { None };
+            json!({"ok": got == want})
+        }
+        "codec_roundtrip" => {
+            use scale::{Decode, Encode};
+            let reg = crate::reg::registry_from_json(&cmd["types"]);
+            let bytes = reg.encode();
+            let mut inp = &bytes[..];
+            let back = scale_info::PortableRegistry::decode(&mut inp);
+            let roundtrip_ok = matches!(&back, Ok(r) if *r == reg) && inp.is_empty();
+            let ref_bytes = crate::v14::encode_registry(&reg);
+            let mut rd = crate::v14::Rd { b: &bytes, p: 0 };
+            let ref_back = rd.registry();
+            let ref_decode_ok = matches!(&ref_back, Some(r) if *r == reg) && rd.p == bytes.len();
+            let lib_of_ref = scale_info::PortableRegistry::decode(&mut &ref_bytes[..]);
+            json!({"bytes": bytes, "roundtrip_ok": roundtrip_ok, "ref_encode_ok": ref_bytes == bytes, "ref_decode_ok": ref_decode_ok && matches!(&lib_of_ref, Ok(r) if *r == reg), "ref_bytes": ref_bytes})
+        }
         "builder_laws" => crate::builders::battery(),
         "registry_laws" => crate::laws::battery(cmd["seed"].as_u64().unwrap_or(0)),
         "metatype_laws" => crate::meta::laws(),
